@@ -6802,6 +6802,444 @@ fn mode_f32probe(seed: u64, thorough: bool) {
 	out.flush();
 }
 
+// ---------------------------------------------------------------------------------------------
+// run `envkeys`: how `ENV_MAP` keys an environment.  The key is the STRING
+// `Path::new(root_path).join("multi_lmdb").to_str()`: another spelling of the same directory (a `.`
+// segment, `..`, a doubled separator, a symlink, a relative path) is a different key, so the
+// registry does not find the environment and opens it again - which heed refuses inside one process
+// (`EnvAlreadyOpened`: it keys by the canonical path).  Outcome per spelling: `shared` (same key: the
+// handle sees and shares the registered environment), `refused` (alias of an open environment),
+// `separate` (another directory).  After every handle is gone an alias opens the environment afresh.
+// The two oracles: an alias must never yield a second live environment on the same files (that
+// would be two gate states and two maps on one database), and a shared handle must really share.
+// ---------------------------------------------------------------------------------------------
+fn mode_envkeys(work: &str, _seed: u64, _thorough: bool) {
+	let mut out = Out::stdout();
+	let base = format!("{}/envkeys", work);
+	let _ = std::fs::remove_dir_all(&base);
+	std::fs::create_dir_all(&base).unwrap();
+	let root = format!("{}/root", base);
+	let other = format!("{}/other", base);
+	let link = format!("{}/link", base);
+	let key_of = |r: &str| std::path::Path::new(r).join("multi_lmdb").to_str().unwrap().to_string();
+	let canon_of = |r: &str| std::fs::canonicalize(std::path::Path::new(r).join("multi_lmdb")).ok();
+	global::set_local_chain_type(ChainTypes::AutomatedTesting);
+	let h1 = open_store(&root);
+	let _ = h1.batch().and_then(|mut b| {
+		b.put(None, b"first", b"one")?;
+		b.commit()
+	});
+	let _ = std::os::unix::fs::symlink(&root, &link);
+	let mut spellings: Vec<(&str, String)> = vec![
+		("same", root.clone()),
+		("trailing-slash", format!("{}/", root)),
+		("dot-segment", format!("{}/./root", base)),
+		("dotdot", format!("{}/root/../root", base)),
+		("double-slash", format!("{}//root", base)),
+		("symlink", link.clone()),
+		("other-directory", other.clone()),
+	];
+	if let Ok(cwd) = std::env::current_dir() {
+		if let Ok(rel) = std::path::Path::new(&root).strip_prefix(&cwd) {
+			spellings.push(("relative", rel.to_str().unwrap().to_string()));
+		}
+	}
+	let (mut n_shared, mut n_refused, mut n_separate, mut n_fail) = (0u64, 0u64, 0u64, 0u64);
+	for (i, (name, sp)) in spellings.iter().enumerate() {
+		let same_key = key_of(sp) == key_of(&root);
+		let same_canon = {
+			// the directory exists after create_dir_all inside Store::new; compare what the name resolves to
+			let _ = std::fs::create_dir_all(std::path::Path::new(sp).join("multi_lmdb"));
+			canon_of(sp).is_some() && canon_of(sp) == canon_of(&root)
+		};
+		let r = Store::new(sp, None, None, DBS.to_vec(), None, None);
+		let outcome = match &r {
+			Err(_) => "refused",
+			Ok(h) => {
+				let sees = matches!(h.get_ser::<RawVal>(None, b"first", None), Ok(Some(_)));
+				let k = format!("via{}", i);
+				let wrote = h
+					.batch()
+					.and_then(|mut b| {
+						b.put(None, k.as_bytes(), b"x")?;
+						b.commit()
+					})
+					.is_ok();
+				let back = matches!(h1.get_ser::<RawVal>(None, k.as_bytes(), None), Ok(Some(_)));
+				if sees && wrote && back {
+					"shared"
+				} else if !sees && !back {
+					"separate"
+				} else {
+					"inconsistent"
+				}
+			}
+		};
+		match outcome {
+			"shared" => n_shared += 1,
+			"refused" => n_refused += 1,
+			"separate" => n_separate += 1,
+			_ => {}
+		}
+		// oracles
+		if outcome == "inconsistent" || (outcome == "shared" && !same_key) || (outcome == "separate" && same_canon) {
+			n_fail += 1;
+			out.raw(&format!(
+				"#ORACLE-FAIL C18 envkeys [{}]: Store::new(\"{}\") while the environment is open as \"{}\": outcome {} (same registry key: {}, same directory: {}) - a second live environment on the same files, or a handle that does not share its environment",
+				name, sp, root, outcome, same_key, same_canon
+			));
+		}
+		out.line(
+			&format!("kv envkey {} samekey={} samedir={}", name, if same_key { 1 } else { 0 }, if same_canon { 1 } else { 0 }),
+			outcome,
+		);
+		drop(r);
+	}
+	// every handle gone: the environment is closed and unregistered; an alias opens it afresh and sees the data
+	drop(h1);
+	let alias = format!("{}/./root", base);
+	let mut reopened = "refused";
+	for _ in 0..50 {
+		match Store::new(&alias, None, None, DBS.to_vec(), None, None) {
+			Ok(h) => {
+				reopened = if matches!(h.get_ser::<RawVal>(None, b"first", None), Ok(Some(_))) { "reopened" } else { "empty" };
+				break;
+			}
+			Err(_) => thread::sleep(Duration::from_millis(100)),
+		}
+	}
+	if reopened != "reopened" {
+		n_fail += 1;
+		out.raw(&format!("#ORACLE-FAIL C18 envkeys: after every handle was dropped Store::new on another spelling of the directory: {}", reopened));
+	}
+	out.line("kv envkey after-close samekey=0 samedir=0", if reopened == "reopened" { "separate" } else { reopened });
+	out.raw(&format!(
+		"#STAT [envkeys] spellings={} shared={} refused (alias of an open environment: heed EnvAlreadyOpened)={} separate={} oracle failures={}; ENV_MAP is keyed by the path string, heed by the canonical path",
+		spellings.len(), n_shared, n_refused, n_separate, n_fail
+	));
+	out.flush();
+}
+
+// ---------------------------------------------------------------------------------------------
+// run `seqs`: scripted batches for the named sequences of the API surface, every answer through the
+// ordinary protocol lines (spec-compared by the driver): keys that are prefixes of each other, keys
+// of 0xFF bytes, the longest legal key, `delete`-then-`get`, `put`-`delete`-`put`, the same through
+// child batches (child commit / child drop / parent drop after child commit / depth 3), `exists`
+// and `iter` at every point, failed operations (empty key, unregistered database, over-long key)
+// followed by further writes and a commit, a typed `get_ser` whose `Readable` fails on the stored
+// bytes next to a raw `get_ser` of the same key; for the default database and a named one.
+// ---------------------------------------------------------------------------------------------
+#[derive(Clone)]
+enum Sq {
+	Put(Vec<u8>, Vec<u8>),
+	PutSer(Vec<u8>, u64, Vec<u8>),
+	Del(Vec<u8>),
+	Get(Vec<u8>),
+	GetRec(Vec<u8>),
+	Exists(Vec<u8>),
+	Iter,
+	BadDbPut,
+	Child(Vec<Sq>, bool),
+}
+
+fn sq_run(out: &mut Out, b: &mut Batch<'_>, db: Db, steps: &[Sq], n_ops: &mut u64) {
+	for st in steps {
+		*n_ops += 1;
+		match st {
+			Sq::Put(k, v) => out.line(&format!("kv put {} {} {}", db_tok(db), hex(k), valtok(v)), &fmt_unit(b.put(db, k, v))),
+			Sq::PutSer(k, tag, body) => {
+				let rec = Rec { tag: *tag, body: body.clone() };
+				out.line(&format!("kv putser {} {} {} {}", db_tok(db), hex(k), tag, hex(body)), &fmt_unit(b.put_ser(db, k, &rec)))
+			}
+			Sq::Del(k) => out.line(&format!("kv del {} {}", db_tok(db), hex(k)), &fmt_unit(b.delete(db, k))),
+			Sq::Get(k) => out.line(&format!("kv get {} {}", db_tok(db), hex(k)), &fmt_get(&b.get_ser::<Vec<u8>>(db, k, None))),
+			Sq::GetRec(k) => out.line(&format!("kv getrec {} {}", db_tok(db), hex(k)), &fmt_rec(b.get_ser::<Rec>(db, k, None))),
+			Sq::Exists(k) => out.line(&format!("kv exists {} {}", db_tok(db), hex(k)), &fmt_bool(&b.exists(db, k))),
+			Sq::Iter => out.line(&format!("kv iter {}", db_tok(db)), &fmt_iter(&collect_iter(b.iter(db, kvpair)))),
+			Sq::BadDbPut => out.line(&format!("kv put {} {} {}", db_tok(Some(BAD_DB)), hex(b"k"), valtok(b"v")), &fmt_unit(b.put(Some(BAD_DB), b"k", b"v"))),
+			Sq::Child(body, commit) => match b.child() {
+				Ok(mut c) => {
+					out.line("kv child", "ok");
+					sq_run(out, &mut c, db, body, n_ops);
+					if *commit {
+						out.line("kv commit", &fmt_unit(c.commit()));
+					} else {
+						drop(c);
+						out.line("kv drop", "ok");
+					}
+				}
+				Err(_) => out.line("kv child", "err"),
+			},
+		}
+	}
+}
+
+fn mode_seqs(work: &str, _seed: u64, _thorough: bool) {
+	let dir = format!("{}/seqs", work);
+	let _ = std::fs::remove_dir_all(&dir);
+	let store = open_store(&dir);
+	let mut out = Out::stdout();
+	let toks: Vec<String> = all_dbs().iter().map(|d| db_tok(*d)).collect();
+	out.line(&format!("kv new [{}]", toks.join(",")), "ok");
+	let a = b"a".to_vec();
+	let a0 = vec![b'a', 0];
+	let aff = vec![b'a', 0xff];
+	let ab = b"ab".to_vec();
+	let ff = vec![0xffu8];
+	let ffff = vec![0xffu8, 0xff];
+	let ff00 = vec![0xffu8, 0];
+	let zero = vec![0u8];
+	let long = vec![b'z'; 511];
+	let toolong = vec![b'y'; 512];
+	let empty: Vec<u8> = vec![];
+	let v = |s: &str| s.as_bytes().to_vec();
+	let every_read = |ks: &[&Vec<u8>]| -> Vec<Sq> {
+		let mut r = vec![Sq::Iter];
+		for k in ks {
+			r.push(Sq::Get((*k).clone()));
+			r.push(Sq::Exists((*k).clone()));
+		}
+		r
+	};
+	let keys: Vec<&Vec<u8>> = vec![&a, &a0, &aff, &ab, &ff, &ffff, &ff00, &zero, &long];
+	let mut scripts: Vec<(&str, Vec<Sq>, bool)> = vec![];
+	// 1. prefix-related keys, 0xFF keys, longest key: order and membership
+	let mut s1: Vec<Sq> = keys.iter().rev().enumerate().map(|(i, k)| Sq::Put((*k).clone(), vec![i as u8 + 1; 3])).collect();
+	s1.extend(every_read(&keys));
+	scripts.push(("prefix-keys", s1, true));
+	// 2. delete-then-get, put-delete-put in one batch
+	let mut s2 = vec![Sq::Del(a.clone()), Sq::Get(a.clone()), Sq::Exists(a.clone()), Sq::Iter, Sq::Put(a.clone(), v("v2")), Sq::Del(a.clone()),
+		Sq::Get(a.clone()), Sq::Put(a.clone(), v("v3")), Sq::Get(a.clone()), Sq::Exists(a.clone()), Sq::Del(ff.clone()), Sq::Iter, Sq::Del(ff.clone()), Sq::Get(ff.clone())];
+	s2.extend(every_read(&keys));
+	scripts.push(("delete-get put-delete-put", s2, true));
+	// 3. through child batches: child commit, child drop
+	let s3 = vec![
+		Sq::Put(ab.clone(), v("p1")),
+		Sq::Child(vec![Sq::Get(ab.clone()), Sq::Del(ab.clone()), Sq::Get(ab.clone()), Sq::Exists(ab.clone()), Sq::Iter, Sq::Put(a0.clone(), v("c1"))], true),
+		Sq::Get(ab.clone()), Sq::Exists(ab.clone()), Sq::Get(a0.clone()), Sq::Iter,
+		Sq::Child(vec![Sq::Put(ab.clone(), v("c2")), Sq::Del(a0.clone()), Sq::Get(ab.clone()), Sq::Iter], false),
+		Sq::Get(ab.clone()), Sq::Get(a0.clone()), Sq::Exists(a0.clone()), Sq::Iter,
+		Sq::Child(vec![Sq::Put(ab.clone(), v("c3")), Sq::Del(ab.clone()), Sq::Put(ab.clone(), v("c4"))], true),
+		Sq::Get(ab.clone()),
+	];
+	scripts.push(("child commit / child drop", s3, true));
+	// 4. depth 3; the parent is dropped after its child committed
+	let s4 = vec![
+		Sq::Put(zero.clone(), v("t1")),
+		Sq::Child(vec![
+			Sq::Put(zero.clone(), v("t2")),
+			Sq::Child(vec![Sq::Del(zero.clone()), Sq::Get(zero.clone()), Sq::Put(ffff.clone(), v("deep")), Sq::Iter], true),
+			Sq::Get(zero.clone()), Sq::Get(ffff.clone()),
+		], true),
+		Sq::Get(zero.clone()), Sq::Exists(zero.clone()), Sq::Get(ffff.clone()), Sq::Iter,
+	];
+	scripts.push(("depth 3, then the parent dropped", s4, false));
+	let s4b = vec![Sq::Get(zero.clone()), Sq::Get(ffff.clone()), Sq::Iter];
+	scripts.push(("after the dropped parent", s4b, true));
+	// 5. failed operations, then more writes, then commit
+	let s5 = vec![
+		Sq::Put(empty.clone(), v("x")), Sq::BadDbPut, Sq::Put(toolong.clone(), v("x")), Sq::Del(empty.clone()), Sq::Get(empty.clone()),
+		Sq::Exists(empty.clone()), Sq::Get(toolong.clone()), Sq::Exists(toolong.clone()), Sq::Del(toolong.clone()),
+		Sq::Put(aff.clone(), v("after-errors")), Sq::Child(vec![Sq::Put(empty.clone(), v("x")), Sq::Put(ff00.clone(), v("child-after-error"))], true),
+		Sq::Get(aff.clone()), Sq::Get(ff00.clone()), Sq::Iter,
+	];
+	scripts.push(("commit after failed operations", s5, true));
+	// 6. a typed read whose Readable fails on the stored bytes
+	let s6 = vec![
+		Sq::PutSer(a.clone(), 77, v("body")), Sq::GetRec(a.clone()), Sq::Get(a.clone()),
+		Sq::Put(ab.clone(), vec![1, 2, 3]), Sq::GetRec(ab.clone()), Sq::Get(ab.clone()), Sq::Exists(ab.clone()),
+		Sq::Put(a0.clone(), vec![0, 0, 0, 0, 0, 0, 0, 5, 0xff, 0xff, 0xff, 0xff, 0xff, 0xff, 0xff, 0xff]), Sq::GetRec(a0.clone()),
+		Sq::Put(aff.clone(), v("still-writable")), Sq::Get(aff.clone()),
+	];
+	scripts.push(("typed read that fails to deserialise", s6, true));
+	let mut n_ops = 0u64;
+	let mut n_batches = 0u64;
+	for db in [None, Some(b'A')] {
+		for (_name, steps, commit) in scripts.iter() {
+			n_batches += 1;
+			let mut b = match store.batch() {
+				Ok(b) => b,
+				Err(_) => {
+					out.line("kv begin", "err");
+					continue;
+				}
+			};
+			out.line("kv begin", "ok");
+			sq_run(&mut out, &mut b, db, steps, &mut n_ops);
+			if *commit {
+				out.line("kv commit", &fmt_unit(b.commit()));
+			} else {
+				drop(b);
+				out.line("kv drop", "ok");
+			}
+			let ans = dump_store(&store).unwrap_or_else(|_| "err".to_string());
+			out.line("kv obs", &ans);
+		}
+	}
+	out.raw(&format!(
+		"#STAT [seqs] scripted batches={} operations={} (prefix-related and 0xFF keys, 511-byte key; delete-get, put-delete-put; child commit / drop, depth 3, parent dropped after child commit; commit after failed operations; typed read that fails) on the default and a named database",
+		n_batches, n_ops
+	));
+	out.flush();
+}
+
+// ---------------------------------------------------------------------------------------------
+// run `twoenv`: growth through 20+ resizes with interleaved readers, two `Store` handles on one
+// environment and a second environment in the same process (`ENV_MAP` holds two entries).  The main
+// thread writes batches of 1/24 of the current map alternately through both handles of environment A
+// and every fourth batch into environment B (until B has resized 8 times); reader threads (one per environment, on handles of their own)
+// keep opening store-level iterators, hold them for a few milliseconds and count.  Oracles: no
+// operation fails; a reader's count never goes down and ends at the number of committed records of
+// ITS environment; A goes through at least 20 resizes; the map of B changes only through batches
+// of B.  Driver: every batch's resize decision (`needs-resize`, from the meta page before it) and
+// the map size the meta page shows after it.
+// ---------------------------------------------------------------------------------------------
+fn mode_twoenv(work: &str, _seed: u64, thorough: bool) {
+	use std::sync::atomic::{AtomicBool, AtomicU64, Ordering};
+	const CHUNK: u64 = 1_048_576;
+	const REC: usize = 32_768;
+	let mut out = Out::stdout();
+	let dir_a = format!("{}/twoenv_a", work);
+	let dir_b = format!("{}/twoenv_b", work);
+	let _ = std::fs::remove_dir_all(&dir_a);
+	let _ = std::fs::remove_dir_all(&dir_b);
+	let a1 = Arc::new(open_store(&dir_a));
+	let a2 = Arc::new(open_store(&dir_a));
+	let b1 = Arc::new(open_store(&dir_b));
+	let stop = Arc::new(AtomicBool::new(false));
+	let committed = [Arc::new(AtomicU64::new(0)), Arc::new(AtomicU64::new(0))];
+	let mut readers = vec![];
+	for (ei, dir) in [dir_a.clone(), dir_b.clone()].into_iter().enumerate() {
+		let stop = stop.clone();
+		let committed = committed[ei].clone();
+		readers.push(thread::spawn(move || -> (u64, u64, u64, Vec<String>) {
+			let h = open_store(&dir);
+			let (mut rounds, mut last, mut max_held) = (0u64, 0u64, 0u64);
+			let mut fails = vec![];
+			while !stop.load(Ordering::SeqCst) {
+				let lower = committed.load(Ordering::SeqCst);
+				match h.iter(None, |k, _v| Ok((k.to_vec(), Vec::<u8>::new()))) {
+					Ok(it) => {
+						thread::sleep(Duration::from_millis(3));
+						let mut n = 0u64;
+						let mut bad = false;
+						for x in it {
+							if x.is_err() {
+								bad = true;
+							}
+							n += 1;
+						}
+						let upper = committed.load(Ordering::SeqCst);
+						if bad {
+							fails.push(format!("environment {}: an iterator item was an error", ei));
+						}
+						if n < last || n < lower || n > upper + 64 {
+							fails.push(format!("environment {}: iterator counted {} records (previous count {}, committed before it opened {}, after it ended {})", ei, n, last, lower, upper));
+						}
+						last = n;
+						max_held = max_held.max(n);
+					}
+					Err(e) => fails.push(format!("environment {}: Store::iter failed: {:?}", ei, e)),
+				}
+				rounds += 1;
+				thread::sleep(Duration::from_millis(2));
+			}
+			(rounds, last, max_held, fails)
+		}));
+	}
+	let target = if thorough { 24 } else { 20 };
+	let (mut res_a, mut res_b, mut n_a, mut n_b) = (0u64, 0u64, 0u64, 0u64);
+	let (mut recs_a, mut recs_b) = (0u64, 0u64);
+	let mut fails: Vec<String> = vec![];
+	let mut i = 0u64;
+	let mut map_b_seen = meta_info(&dir_b).map(|m| m.0).unwrap_or(CHUNK);
+	while res_a < target && i < 4000 && fails.len() < 5 {
+		i += 1;
+		let to_b = i % 4 == 0 && res_b < 8;
+		let (dir, h, ei) = if to_b { (&dir_b, &b1, 1usize) } else { (&dir_a, if i % 2 == 0 { &a1 } else { &a2 }, 0usize) };
+		// environment B must not have moved while only A was written
+		let mb = meta_info(&dir_b).map(|m| m.0).unwrap_or(CHUNK);
+		if mb != map_b_seen {
+			fails.push(format!("the map of environment B changed from {} to {} although only environment A was written", map_b_seen, mb));
+			map_b_seen = mb;
+		}
+		let pre = meta_info(dir).unwrap_or((CHUNK, 0, 0));
+		// a batch must fit into the head-room the 90 % threshold leaves (the map grows only in
+		// Store::batch(): recorded finding C18-mapfull-oversize-batch): 1/24 of the map, in records of
+		// at most 1 MiB
+		let total = (pre.0 / 24).max(REC as u64);
+		let n_rec = ((total + CHUNK - 1) / CHUNK).max(1);
+		let rec_len = (total / n_rec) as usize;
+		let val = vec![(i % 251) as u8; rec_len];
+		let r = h.batch().and_then(|mut b| {
+			for j in 0..n_rec {
+				b.put(None, format!("k{:06}_{}", i, j).as_bytes(), &val)?;
+			}
+			b.commit()
+		});
+		match r {
+			Ok(()) => {
+				committed[ei].fetch_add(n_rec, Ordering::SeqCst);
+				if to_b {
+					recs_b += n_rec;
+				} else {
+					recs_a += n_rec;
+				}
+			}
+			Err(e) => fails.push(format!("batch {} into environment {} failed: {:?}", i, if to_b { "B" } else { "A" }, e)),
+		}
+		let post = meta_info(dir).unwrap_or((0, 0, 0));
+		out.line(
+			&format!("kv needs-resize {} {} {}", pre.0, pre.1 * 4096, CHUNK),
+			&format!("{} {}", post.0 != pre.0, post.0),
+		);
+		if post.0 != pre.0 {
+			if to_b {
+				res_b += 1;
+			} else {
+				res_a += 1;
+			}
+		}
+		if to_b {
+			n_b += 1;
+			map_b_seen = post.0;
+		} else {
+			n_a += 1;
+		}
+	}
+	thread::sleep(Duration::from_millis(30));
+	stop.store(true, Ordering::SeqCst);
+	let mut rstat = vec![];
+	for (ei, t) in readers.into_iter().enumerate() {
+		match t.join() {
+			Ok((rounds, last, _max, f)) => {
+				fails.extend(f.into_iter().take(3));
+				rstat.push(format!("reader {}: {} iterators, last count {}", ei, rounds, last));
+			}
+			Err(_) => fails.push(format!("reader thread of environment {} panicked", ei)),
+		}
+	}
+	// final counts through the handles that did not write last
+	let cnt = |h: &Store| collect_iter(h.iter(None, |k, _v| Ok((k.to_vec(), Vec::<u8>::new())))).map(|v| v.len() as u64).unwrap_or(u64::MAX);
+	let (ca1, ca2, cb) = (cnt(&a1), cnt(&a2), cnt(&b1));
+	if ca1 != recs_a || ca2 != recs_a || cb != recs_b {
+		fails.push(format!("final record counts: A through handle 1 {} / handle 2 {} (expected {}), B {} (expected {})", ca1, ca2, recs_a, cb, recs_b));
+	}
+	if res_a < target {
+		fails.push(format!("environment A went through only {} resizes in {} batches", res_a, i));
+	}
+	for f in fails.iter() {
+		out.raw(&format!("#ORACLE-FAIL C18 twoenv: {}", f));
+	}
+	out.raw(&format!(
+		"#STAT [twoenv] batches A={} (two handles alternating) B={}; resizes A={} B={}; final maps A={} B={}; {}; oracle failures={}",
+		n_a, n_b, res_a, res_b,
+		meta_info(&dir_a).map(|m| m.0).unwrap_or(0), meta_info(&dir_b).map(|m| m.0).unwrap_or(0),
+		rstat.join("; "), fails.len()
+	));
+	out.flush();
+}
+
 fn main() {
 	if std::env::var("VERIF_KV_LOUD").is_err() {
 		quiet_panics();
@@ -6852,6 +7290,9 @@ fn main() {
 		"shared" => mode_shared(&work, seed, thorough),
 		"deferred" => mode_deferred(&work, seed, thorough),
 		"rehandle" => mode_rehandle(&work, seed, thorough),
+		"envkeys" => mode_envkeys(&work, seed, thorough),
+		"seqs" => mode_seqs(&work, seed, thorough),
+		"twoenv" => mode_twoenv(&work, seed, thorough),
 		"dropprobe" => mode_dropprobe(&work),
 		"newprobe" => mode_newprobe(&work, seed, thorough),
 		_ => {
